@@ -33,7 +33,7 @@ type dNode struct {
 
 type dErr struct{ p, k int }
 
-func (e dErr) Error() string                  { return fmt.Sprintf("node %d/%d failed", e.p, e.k) }
+func (e dErr) Error() string                 { return fmt.Sprintf("node %d/%d failed", e.p, e.k) }
 func (e dErr) VerifNode() eventlogger.NodeID { return dnid(e.p, e.k) }
 
 // dCtxErr: a node error that wraps a context error although Send's own context is fine (the node's own deadline)
